@@ -488,3 +488,18 @@ def run(index, rep, tier):
         rep.rule("R02.16", "the traversals the writers walk a tree with do not recurse on depth (C07 R07.11): Node.preorder_iter / postorder_iter / levelorder_iter / leaf_iter contain no call of the same method on another node - the NeXML writer emits nodes and edges through preorder_node_iter, so a recursive generator makes a ladder tree of a thousand leaves unwritable (RecursionError) although the format and the reader take it")
         nb = borrow(index, rep, "C07", {"R07.11"}, "R02.16")
         rep.floor("R02.16", "borrowed obligations", 2, nb)
+
+    # ---- R02.17 an undefined rooting state is not 'rooted'
+    with rep.section("R02.17"):
+        rep.rule("R02.17", "an undefined rooting state is not 'rooted': Tree.is_rooted and Tree.is_unrooted both answer None for a tree whose rooting was never stated, and the writers render that state as unrooted (`is_rooted` tested for truth). A writer never decides 'rooted' as `not <tree>.is_unrooted` - that is True for None, so a NeXML document would carry root=\"true\" for such a tree and it would read back as rooted")
+        n17 = 0
+        for mod in ("dendropy.dataio.nexmlwriter", "dendropy.dataio.newickwriter", "dendropy.dataio.nexuswriter"):
+            for f in index.functions_in_module(mod):
+                for x in ast.walk(f.node):
+                    if isinstance(x, ast.Attribute) and x.attr in ("is_rooted", "is_unrooted", "_is_rooted") and isinstance(x.ctx, ast.Load):
+                        n17 += 1
+                for x in ast.walk(f.node):
+                    if isinstance(x, ast.UnaryOp) and isinstance(x.op, ast.Not) and isinstance(x.operand, ast.Attribute) and x.operand.attr == "is_unrooted":
+                        rep.check(False, "R02.17", f.qualname, "rootedness decided as `not ...is_unrooted`", fn_where(f, x), "",
+                                  "%s decides on `%s`: for a tree whose rooting state is undefined both is_rooted and is_unrooted are None, so this is True - the tree is written as rooted (NeXML: root=\"true\" on the seed node) and reads back with is_rooted True where the undefined state is to be rendered as unrooted" % (f.qualname, norm(x)))
+        rep.floor("R02.17", "reads of the rooting state in the tree writers", 3, n17)
